@@ -319,7 +319,7 @@ pub fn run(ctx: &Ctx) -> i32 {
         for ext in [false, true] {
             let fs2 = [atoms[i], atoms[j]];
             w.check(2, || d2(&fs2, ext), |st| eval_filters(ext, &fs2, st));
-            if ctx.tier == crate::explore::Tier::Thorough || (i + j) % 7 == 0 {
+            if ctx.tier == crate::explore::Tier::Thorough || (i + j) % 2 == 0 {
                 for k in 0..atoms.len() {
                     let fs3 = [atoms[i], atoms[j], atoms[k]];
                     w.check(3, || d2(&fs3, ext), |st| eval_filters(ext, &fs3, st));
@@ -374,7 +374,7 @@ pub fn run(ctx: &Ctx) -> i32 {
         "distinct_nontrivial": ctx.counter("nontrivial"),
         "rule": "48 sizes x (data/total codewords, pixel dimensions, every finder/alignment module of the region layout, size detection, interleaved blocks via the support of the EC response to every unit data vector) against \
 ISO/IEC 16022 Table 7 / ISO/IEC 21471 (R2, R4); default = the 30 ISO 16022 sizes, extended = 48; enforce_width_in / enforce_height_in for every range a..b, a..=b, a.., (a,inf), ..a, ..=a, .. with a, b in 0..=150 on both lists; \
-compositions of 2 (all) and 3 (quick: one seventh; thorough: all) filters over a reduced bound set; all 4095 subsets of a 12-symbol set as shuffled white-lists (+ reversed), all singles and ordered pairs: membership, \
+compositions of 2 (all) and 3 (quick: half of the pairs extended by every third filter; thorough: all) filters over a reduced bound set; all 4095 subsets of a 12-symbol set as shuffled white-lists (+ reversed), all singles and ordered pairs: membership, \
 iteration by non-decreasing capacity, and for every k in 0..=maxcap+1 the symbol picked for k ASCII codewords is the first of the iteration order that is large enough. All cases distinct; non-trivial = filter result differs from the unfiltered lists / any white-list / any size.",
         "exhaustive": true,
         "picks_checked": ctx.counter("picks_checked"),
